@@ -201,7 +201,8 @@ def execute(case, mode):
 def enumerate_cases(ctx):
     s = LabelledSystem()
     consts = dict(Grids=fx.grid_consts(), DofTypes=fx.DOF_TYPES, EqCat=eq_catalogue(), EqIds={1, 2, 3},
-                  VarGroups=s.var_groups(), GridChoices={"all", "none", "first", "last", "ends"})
+                  VarGroups=s.var_groups(), GridChoices={"all", "none", "first", "last", "ends"},
+                  MaxVarGroups=2 if ctx.quick else 6)
     m, cf = tlc.gen(ctx.work / "enum", "MC_AssemblyEnum", "AssemblyEnum", consts,
                     invariants=["Emit", "LawRowsUnique", "LawRowsFromFull", "LawIndicesContiguous"])
     res = ctx.tlc(m, cf, workers=16, allow_violation=False, timeout=1500)
